@@ -218,7 +218,7 @@ func init() {
 	fw.Register(&fw.Check{
 		ID:    "C08",
 		Level: "exploration",
-		Rule: "memory: adversarial CBE documents of <= 64 bytes with an inflated length in every header kind (string/array chunk headers, identifier, media type, big integer, custom type, long ULEB128), decoded under " +
+		Rule: "memory: adversarial CBE documents (<= 64 bytes, or up to 70 KB when real payload follows the header) with an inflated length in every header kind (string/array chunk headers, identifier, media type, big integer, custom type, long ULEB128), decoded under " +
 			"MaxArraySizeBytes in {1 KiB, 64 KiB, 1 MiB}; observed: runtime.MemStats.TotalAlloc around one decode (after a warm-up decode, GOMAXPROCS=1, GC forced), process death under RLIMIT_AS 4 GiB; oracle " +
 			"TotalAlloc <= 8 MiB + 4096*len(doc) + 8*MaxArraySizeBytes. time, restated as bounded scaling: " + fmt.Sprint(len(c08Families)) + " document families (many small tokens, long strings, escapes, wide maps, nesting, long typed arrays, " +
 			"many chunks, markers, comments) at sizes n, 2n, 4n, 8n; deterministic oracle: growth exponent log2(X(8n)/X(n))/3 <= 1.5 for X = TotalAlloc and X = Mallocs; CPU time (min of 3, getrusage) is a second observable " +
